@@ -15,6 +15,8 @@ mod alloc;
 #[cfg(test)]
 pub(crate) use self::alloc::AllocError;
 pub(crate) use self::alloc::{do_alloc, Allocator, Global};
+#[cfg(feature = "verif-hooks")]
+pub(crate) mod verif;
 
 #[inline]
 unsafe fn offset_from<T>(to: *const T, from: *const T) -> usize {
